@@ -53,6 +53,9 @@ func run(e *vlib.Env) vlib.Result {
 	case 1:
 		return runFanIn(e)
 	case 2:
+		if (e.Idx/4)%5 == 4 {
+			return runRequeuerShutdown(e)
+		}
 		return runRequeuer(e)
 	default:
 		return runFanOut(e)
